@@ -92,6 +92,7 @@ struct photospline_verif_access {
 		return t.ndim == 0 && !t.order && !t.knots && !t.nknots && !t.extents && !t.periods && !t.coefficients && !t.naxes && !t.strides;
 	}
 	template <class T> static bool aux_null(const T& t) { return t.naux == 0 && !t.aux; }
+	template <class T> static typename T::allocator_type& alloc(T& t) { return t.allocator; }
 	// which core did get_evaluator select? (drift reporting for C03)
 	template <class T, class F> static int evaluator_class(const T& t, const typename T::template evaluator_type<F>& e) {
 		if (e.eval_ptr == &T::template ndsplineeval_core<F>) return 0;  // generic
